@@ -411,7 +411,7 @@ def run(ctx):
     out = C.harness("dl-c15", ["cases", "--tier", ctx.tier], timeout=3000)
     cfgs, cfg_ids, layouts, lay_ids = {}, {}, {}, {}
     cases = []          # (id, coq term, info)
-    resolution, conversion, e2e = [], [], []
+    resolution, conversion, e2e, bundles = [], [], [], []
     for line in out.splitlines():
         p = line.split(" ")
         kind = p[0]
@@ -433,6 +433,8 @@ def run(ctx):
             conversion.append(p)
         elif kind == "E":
             e2e.append(p)
+        elif kind == "D":
+            bundles.append(p)
         elif kind == "I":
             cases.append((len(cases), "TI %s %s %s" % (q(hx(p[1])), q(hx(p[2])), coq_list(q(hx(x)) for x in p[3:])),
                           {"kind": "I", "line": line}))
@@ -600,6 +602,19 @@ def run(ctx):
     e2e_bad = [p for p in e2e if p[7] != p[8] or (p[9] != "~" and p[9] != p[8])]
     e2e_process = sum(1 for p in e2e if p[9] != "~")
 
+    # ---- bundling through process: the bundle contains exactly the file the locator (hook) resolved
+    bundle_bad, bundle_found = [], 0
+    for p in bundles:
+        hook, got = p[6], p[7]
+        if hook.startswith("!"):
+            ok = got.startswith("!") or got == "-"
+        else:
+            bundle_found += 1
+            ok = (not got.startswith("!")) and got != "-" and \
+                set(lexical(unhex(x)) for x in got.split(",")) == {lexical(unhex(hook))}
+        if not ok:
+            bundle_bad.append(p)
+
     sample_r = [{"config": resolution[k][1], "layout": resolution[k][2], "requiring_file": unhex(resolution[k][3]),
                  "require": unhex(resolution[k][4]), "results_over_all_subsets": sorted(set(
                      (x if x.startswith("!") else unhex(x)) for x in resolution[k][5:]))}
@@ -618,6 +633,9 @@ def run(ctx):
     ctx.stream("hooks vs the ConvertRequire rule object vs darklua_core::process (generated argument)", len(e2e),
                e2e_process, [], mismatches=len(e2e_bad))
 
+    ctx.stream("bundling through darklua_core::process (configuration file at the configuration location): bundled file "
+               "vs the locator hook", len(bundles), bundle_found, [], mismatches=len(bundle_bad))
+
     # ---- verdicts
     for key, (count, witness) in sorted(res_dev.items()):
         witness = dict(witness, occurrences=count)
@@ -633,6 +651,13 @@ def run(ctx):
         p = e2e_bad[0]
         ctx.violation("the ConvertRequire rule / process front door generate a different argument than the hooks",
                       {"line": " ".join(p), "mismatches": len(e2e_bad)}, found_input=False)
+    if bundle_bad and not ctx.violations:
+        p = bundle_bad[0]
+        ctx.violation("bundling through process embeds a different file than the locator hook resolves",
+                      {"config": p[1], "layout": p[2], "mask": p[3], "requiring_file": unhex(p[4]), "require": unhex(p[5]),
+                       "hook": p[6] if p[6].startswith("!") else unhex(p[6]),
+                       "bundled_files": p[7] if p[7].startswith("!") or p[7] == "-" else [unhex(x) for x in p[7].split(",")],
+                       "mismatches": len(bundle_bad)}, found_input=False)
     mismatch = small_bad + r_bad + v_bad
     if mismatch and not ctx.violations:
         info, diag = mismatch[0]
